@@ -20,9 +20,10 @@ FUNCTIONS = ['uxarray.io._mpas._replace_padding',
     'uxarray.io._mpas._parse_edge_nodes@dual',
     'uxarray.io._esmf._read_esmf',
     'uxarray.io._exodus._read_exodus@coordxyz',
-    'uxarray.io._exodus._read_exodus@coordxyz2']
+    'uxarray.io._exodus._read_exodus@coordxyz2',
+    'uxarray.io._ugrid._standardize_connectivity']
 STANDINS = ["readers"]
 ASSUMPTIONS = []
 EXPLANATION = ""
-LEVEL_TEXT = "index / fill-value standardisation helpers of the readers (_replace_fill_values, _process_connectivity, MPAS _replace_padding/_replace_zeros/_to_zero_index) proved against 'zero-based, padded only with the standard fill value' for every table of every size; the whole ESMF reader (_read_esmf) proved: corner j of face f is the source index minus the declared start_index (default 1), padding exactly beyond numElementConn[f], caller arrays untouched; MPAS table parsers proved with ownership preconditions; the other readers x dialects are a bounded stand-in (10 formats, in-memory sources, independent decoder)"
+LEVEL_TEXT = "index / fill-value standardisation helpers of the readers (_replace_fill_values, _process_connectivity, MPAS _replace_padding/_replace_zeros/_to_zero_index) proved against 'zero-based, padded only with the standard fill value' for every table of every size; the whole ESMF reader (_read_esmf) proved: corner j of face f is the source index minus the declared start_index (default 1), padding exactly beyond numElementConn[f], caller arrays untouched; MPAS table parsers proved with ownership preconditions; the UGRID table standardisation (_standardize_connectivity: declared or inferred index base, declared fill value, caller buffer untouched) and the Exodus reader dataflow proved; the other readers x dialects are a bounded stand-in (10 formats, in-memory sources, independent decoder)"
 LEVEL_NOTE = "numpy primitives as library models (elementwise ops, boolean-mask scatter, astype/copy); int overflow not modelled for these helpers; netCDF/geopandas I/O and the readers' xarray plumbing are only exercised by the stand-in"
